@@ -237,7 +237,7 @@ PROPS = {
                      "Hctl.C19.explode_names_injective", "Hctl.C19.every_instantiation_induced", "Hctl.C19.flatten_family",
                      "Hctl.C19.flatten_specified", "Hctl.C19.no_regulators_untouched"],
         "ks": ["k10"],
-        "spec_tied": ["k10"],
+        "spec_tied": [],
         "bins": True,
         "full": True,
         "rule": "K10: 8 hand-written + random aeon networks (2-3 variables; implicit functions of arity 0-3; explicit f/2, g/1, k/0, nested "
@@ -245,6 +245,23 @@ PROPS = {
                 "the model; oracle: family over the constants = family of instantiations of the input",
         "assumptions": ["no existing variable or parameter is named like a generated constant (`<name>_<bits>`)",
                         "aeon/bnet parsing and printing of lib-param-bn (modelled, not verified)"],
+    },
+    "C09": {
+        "module": "HctlProofs.Props.C09",
+        "theorems": ["Hctl.C09.renaming_injective", "Hctl.C09.renaming_names", "Hctl.C09.renaming_total",
+                     "Hctl.C09.canonName_injective", "Hctl.C09.dupIncr_keys"],
+        "ks": ["k5", "k6"],
+        "spec_tied": [],
+        "full": False,
+        "not_proved": "proved for the tree-level pass canonTree: the renaming is a total injective function onto fresh names var0, var1, …. "
+                      "NOT proved in Lean: (a) that the character-level pass of the code equals rendering canonTree (checked by K5: requests "
+                      "`canon` and `canont` must both agree with the implementation on every sub-formula), (b) same canonical form <=> equal "
+                      "up to renaming, (c) idempotence, (d) the duplicate-counter bound; (b)-(d) are decided by the model-free oracles of "
+                      "K5/K6 (independent alpha-normal form, independent occurrence count) and the model<->code correspondence",
+        "rule": "K5: every sub-formula of all preprocessed trees with <= 4 (5) nodes + random preprocessed trees (propositions such as a3, V_b); "
+                "pairwise oracle: same canonical form iff same alpha-normal form. K6: batches of 1-4 formulae with planted overlaps "
+                "(renamed, under same/different/nested domains, under jumps); oracle: independent occurrence count",
+        "assumptions": ["the canoniser and duplicate-marking models are the code's: checked by K5/K6 on every run"],
     },
 }
 
@@ -341,6 +358,15 @@ MANIFEST_TEXT.update({
                     "(so the family is exactly preserved), parameter-free functions are unchanged, unregulated variables untouched. "
                     "Correspondence: truth tables of the binary's output vs the model; oracle: the two families as sets.",
             "note": _GLUE_NOTE, "technique": "Lean 4 proof (mutual structural induction over the FnUpdate model) + differential correspondence check of the built binary"},
+})
+
+MANIFEST_TEXT.update({
+    "C09": {"text": "Lean theorems about the tree-level canonisation pass: the renaming it returns is a function, total on the variables "
+                    "of the sub-formula and injective, with fresh canonical names in order of first occurrence. The remaining clauses of "
+                    "the property (canonical form <=> alpha-equivalence, idempotence, duplicate counters) are decided by exhaustive/"
+                    "random correspondence of the canoniser and duplicate-marker models with the code plus model-free oracles.",
+            "note": _FRONT_NOTE + " The char-level = tree-level bridge is correspondence-checked, not proved.",
+            "technique": "Lean 4 proof (state invariant of the canonisation pass) + differential correspondence check + independent alpha-equivalence / occurrence-count oracles"},
 })
 
 ALL_IDS = ["C%02d" % i for i in range(1, 21)]
